@@ -228,6 +228,7 @@ def worker(payload):
         change_after_call = False
         broke_at = None
         warmed = {}
+        warm_keys = set()
         for j, (a, b) in enumerate(zip(r["ops"], im)):
             out["ops"] += 1
             op = sc["ops"][j]
@@ -240,7 +241,7 @@ def worker(payload):
                 ma["o"] = ["ambiguous"]
             stop_after = False
             predicted[0] = True
-            if opts.get("type_args") and op[0] == "call" and any(sc["args"][i]["kind"] == "type" for i in op[1]):
+            if opts.get("type_args") and op[0] == "call" and any(sc["args"][i]["kind"] == "type" for i in list(op[1]) + [v for _, v in op[2]]):
                 # at a position keyed by type(x) the real key of a passed type is its metaclass / alias class
                 # (type, ABCMeta, _ProtocolMeta, types.GenericAlias, typing._GenericAlias); the model has one class
                 # id for each of the two kinds, so resolve *counts* may differ: not compared here (C20 has its own)
@@ -262,6 +263,7 @@ def worker(payload):
                 if seen_call:
                     change_after_call = True
                 warmed = {}
+                warm_keys = set()
                 continue
             seen_call = True
             ok = b["o"]
@@ -328,6 +330,18 @@ def worker(payload):
                     o20["nontrivial"] += 1
             if ok[0] == "ran":
                 warmed[ck] = True
+            # C20, by combination: within a successful call every resolved key, read the way the entry point keys the
+            # same arguments, is new since the last change of the method set (direct, through recurse, through
+            # call_next alike; `f.next` keys by subtler_type throughout and is left out)
+            if ok[0] == "ran" and "rkeys" in b and not any(fw.defs_by_id[e[0]]["body"][0] == "next" for e in b.get("raw", [])):
+                o20["n"] += 1
+                rk = b["rkeys"]
+                again = [k for k in rk if k in warm_keys] + [k for q, k in enumerate(rk) if k in rk[:q]]
+                if rk:
+                    o20["nontrivial"] += 1
+                if again:
+                    o20["viol"].append({"law": "an argument-type combination that had already been handled was resolved again (as the entry point keys it)", "resolved": len(rk), "again": len(again), **wit})
+                warm_keys.update(rk)
             # ---------------- C02: documented rule for the direct call
             if a.get("bind") is True and a.get("static"):
                 o2 = orc("C02")
